@@ -129,7 +129,9 @@ def write_replay(prop, seed, viol, family, idx):
 
 def write_evidence(prop, tier, seed, level, coverage, assumptions, wall,
                    nviol, extra=None):
-    d = os.path.join(VERIF, "evidence")
+    d = os.environ.get("EON_VERIF_EVIDENCE_DIR") or os.path.join(VERIF, "evidence")
+    if d == "/dev/null":
+        return None
     os.makedirs(d, exist_ok=True)
     ev = {"property_id": prop, "tier": tier, "seed": seed, "level": level,
           "coverage": coverage, "assumptions": assumptions,
